@@ -866,5 +866,122 @@ def c18(run):
     legacy_timer(run)
 
 
-CHECKS = {"C14": c14, "C15": c15, "C16": c16, "C17": c17, "C11": c11, "C18": c18, "C08": c08, "C12": c12, "C01": c01, "C02": c02, "C03": c03, "C04": c04, "C05": c05, "C06": c06, "C07": c07,
+def tconv_rows():
+    U64, I64, NPS = 18446744073709551615, 9223372036854775807, 1000000000
+    DT = 8210266876799
+    R = []
+    add = lambda k, a, b=0: R.append({"kind": k, "a": str(a), "b": str(b)})
+    for m in (0, 1, 12345, 2 ** 32, U64 // 1000000 - 1, U64 // 1000000, U64 // 1000000 + 1, 2 ** 63, U64 - 1, U64):
+        add("dur_from_millis", m)
+    for x in (0, 1, 86400, 2 ** 32, U64 // NPS - 1, U64 // NPS, U64 // NPS + 1, 2 ** 63, U64):
+        add("dur_from_secs", x)
+    for sc, sub in ((0, 0), (0, 1), (0, NPS - 1), (1, 0), (2 ** 34, 5), (U64 // NPS, U64 % NPS - 1), (U64 // NPS, U64 % NPS),
+                    (U64 // NPS, U64 % NPS + 1), (U64 // NPS + 1, 0), (2 * (U64 // NPS) + 1, 7), (2 ** 63, 0), (U64, NPS - 1)):
+        add("std_to_wire_dur", sc, sub)
+    for d in (0, 1, NPS - 1, NPS, NPS + 1, 2 ** 32, I64 - 1, I64, I64 + 1, U64 - 1, U64):
+        add("wire_to_std_dur", d)
+        add("wire_to_delta", d)
+    for sc, sub in ((0, 0), (0, 1), (1, 0), (-1, 0), (-1, NPS - 1), (-1, 1), (-86400, 0), (-(I64 // NPS), 0), (I64 // NPS, I64 % NPS - 1),
+                    (I64 // NPS, I64 % NPS), (I64 // NPS, I64 % NPS + 1), (U64 // NPS, U64 % NPS), (U64 // NPS, U64 % NPS + 1),
+                    (U64 // NPS + 1, 0), (9223372036854775, 0), (-9223372036854775, 0)):
+        add("delta_to_wire_dur", sc, sub)
+    for sc, n in ((0, 0), (1, NPS - 1), (1, NPS), (1, NPS + 1), (5, 2 ** 32 - 1), (U64, 0), (U64, NPS - 1), (U64, NPS)):
+        add("instant_new", sc, n)
+        add("wire_instant_deser", sc, n)
+    for sc, n in ((0, 0), (1, 5), (NPS, 10), (2 ** 40, NPS - 1), (I64 - 1, NPS - 1), (I64, 0)):
+        add("systime_to_instant", sc, n)
+    for sc, n in ((0, 0), (NPS, 10), (2 ** 40, NPS - 1), (I64 - 1, NPS - 1), (I64, 0), (I64, NPS - 1), (I64 + 1, 0), (U64, NPS - 1)):
+        add("instant_to_systime", sc, n)
+    for sc, n in ((0, 0), (NPS, 10), (DT - 1, NPS - 1), (DT, 0), (DT, NPS - 1), (DT + 1, 0), (2 ** 40 * 16, 0), (I64, 0), (I64 + 1, 0), (U64, 0)):
+        add("instant_to_datetime", sc, n)
+    for ts, n in ((0, 0), (NPS, 10), (-1, 0), (-1, NPS - 1), (-86400, 5), (-DT, 0), (59, NPS - 1), (59, NPS), (59, 2 * NPS - 1),
+                  (1483228799, NPS + 500), (DT, NPS - 1), (DT, 0)):
+        add("datetime_to_instant", ts, n)
+    add("chrono_max_ts", 0)
+    return R
+
+
+def c19(run):
+    """TimeConv.tla (exact integer arithmetic, Apalache): the round trips hold for every value; rows recorded from
+    the real conversions at and around every boundary are validated against it"""
+    run.level = "exploration"
+    run.extra["rule"] = ("rows at and around every boundary of every representation, executed on the real conversions and "
+                         "validated against TimeConv.tla by Apalache; the specification's round trips are checked symbolically")
+    run.assumptions = [
+        "Apalache, not TLC: the values do not fit 32-bit integers",
+        "rows at and around the boundaries of every representation (0, 1, 10^9 +- 1, i64::MAX +- 1, u64::MAX +- 1, "
+        "u64::MAX / 10^6 and / 10^9 +- 1, chrono's MAX_UTC +- 1, negative deltas and timestamps, leap-second nanos); "
+        "the spec's own round-trip theorems are symbolic (every value)",
+        "SystemTime as on this platform (i64 seconds); between i64::MAX and u64::MAX nanoseconds a chrono TimeDelta "
+        "conversion may also be rejected (chrono cannot hand out the count as an i64)"]
+    d = run.dir
+    import shutil
+    shutil.copy(os.path.join(lib.SPEC, "TimeConv.tla"), os.path.join(d, "TimeConv.tla"))
+    shutil.copy(os.path.join(lib.SPEC, "Ind_TimeConv.tla"), os.path.join(d, "Ind_TimeConv.tla"))
+    t0 = lib.time.time()
+
+    def apalache(module, inv):
+        rc, out = lib.sh(["apalache-mc", "check", "--init=Init", f"--inv={inv}", "--length=0",
+                          "--out-dir=" + os.path.join(lib.WORK, "apalache"), module], cwd=d, timeout=900)
+        if "The outcome is: NoError" in out:
+            return True
+        if "The outcome is: Error" in out:
+            return False
+        raise lib.ToolError("Apalache broke:\n" + out[-2000:])
+    if not apalache("Ind_TimeConv.tla", "RoundTrips"):
+        raise lib.ToolError("TimeConv.tla does not satisfy its own round-trip theorems")
+    run.stages.append({"stage": "Ind_TimeConv[RoundTrips, every value]", "kind": "apalache-symbolic", "outcome": "NoError",
+                       "wall_s": round(lib.time.time() - t0, 1)})
+    rows = tconv_rows()
+    rp, op = run.path("rows.ndjson"), run.path("rows.out")
+    with open(rp, "w") as f:
+        for r in rows:
+            f.write(json.dumps(r) + "\n")
+    lib.build_harness()
+    rc, o = lib.sh([lib.BIN, "tconv", rp, op], timeout=300)
+    if rc != 0:
+        raise lib.ToolError("tconv harness failed: " + o[-2000:])
+    got = [json.loads(l) for l in open(op)]
+    if len(got) < len(rows) * 0.8:
+        raise lib.ToolError(f"only {len(got)} of {len(rows)} rows could be set up")
+
+    def check(sub):
+        recs = ",\n  ".join('[kind |-> "%s", a |-> %s, b |-> %s, ok |-> %s, x |-> %s, y |-> %s]'
+                            % (g["kind"], g["a"], g["b"], "TRUE" if g["res"] == "ok" else "FALSE", g["x"], g["y"]) for g in sub)
+        with open(os.path.join(d, "Ind_TimeRows.tla"), "w") as f:
+            f.write("---- MODULE Ind_TimeRows ----\nEXTENDS TimeConv, Sequences\nVARIABLE\n  \\* @type: Int;\n  dummy\n"
+                    "Init == dummy = 0\nNext == UNCHANGED dummy\n"
+                    "\\* @type: Seq({ kind: Str, a: Int, b: Int, ok: Bool, x: Int, y: Int });\nRows == <<\n  " + recs + " >>\n"
+                    "AllConform == \\A i \\in DOMAIN Rows : Conforms(Rows[i])\n====\n")
+        return apalache("Ind_TimeRows.tla", "AllConform")
+
+    # all rows at once; if that fails, kind by kind; inside a failing kind, row by row
+    bad = []
+    if not check(got):
+        for k in sorted({g["kind"] for g in got}):
+            sub = [g for g in got if g["kind"] == k]
+            if not check(sub):
+                bad += [g for g in sub if not check([g])]
+    known = {(f["id"], k) for f in lib.kf_for(run.prop) for k in f.get("rows", [])}
+    for g in bad:
+        sig = f'{g["kind"]}({g["a"]},{g["b"]})'
+        kf = next((f for f in lib.kf_for(run.prop) if sig in f.get("rows", [])), None)
+        if kf:
+            run.known(kf)
+            continue
+        run.violations += 1
+        p = os.path.join(lib.WORK, "replay", f"{run.prop}-{run.violations}.json")
+        with open(p, "w") as f:
+            json.dump({"kind": "tconv-row", "property": run.prop, "row": {"kind": g["kind"], "a": g["a"], "b": g["b"]},
+                       "observed": g}, f, indent=1)
+        print(f"VIOLATION property={run.prop} replay={p}")
+        print("  the conversion does not do what TimeConv.tla says: " + json.dumps(g))
+    run.traces += len(got)
+    run.stages.append({"stage": "rows[crux_time conversions]", "kind": "trace-validation(apalache)", "rows": len(got),
+                       "rows_not_representable_here": len(rows) - len(got), "nonconforming": len(bad),
+                       "wall_s": round(lib.time.time() - t0, 1)})
+    run.sample({"row": got[len(got) // 2]})
+
+
+CHECKS = {"C19": c19, "C14": c14, "C15": c15, "C16": c16, "C17": c17, "C11": c11, "C18": c18, "C08": c08, "C12": c12, "C01": c01, "C02": c02, "C03": c03, "C04": c04, "C05": c05, "C06": c06, "C07": c07,
           "C09": c09, "C13": c13}
